@@ -44,6 +44,13 @@ def gen_case(st, tier, env):
     else:
         ds = gen.gen_dataset(w, n_max=n_max, m_max=6, n_min=2)
     scheme = gen.gen_scheme(w, dyadic=True)
+    if env != "present" and k.random() < 0.08:
+        # near-equal penalties (differences 3e-4 .. 5e-4): only on the free-solver path, whose comparisons are all
+        # strict; the CPLEX model builder has a documented 1e-3 precision threshold of its own (DESIGN.md, limits)
+        for _ in range(20):
+            scheme = gen.gen_scheme(w, dyadic=False)
+            if scheme.get("family") == "near-equal":
+                break
     if k.random() < 0.25 and scheme["B"][5] == scheme["T"][5]:
         scheme["B"][5] = scheme["T"][5] + 1.0  # favour the doubly-unranked asymmetry
         scheme["family"] += "/B5>T5"
